@@ -10,6 +10,10 @@ git -C /repo worktree remove --force $WT 2>/dev/null
 git -C /repo worktree add -f --detach $WT HEAD >/dev/null 2>&1 || exit 2
 for d in $SRC/C*/OUT/*/; do
   pid=$(basename $(dirname $(dirname $d))); var=$(basename $d); id=${pid}${var}
+  # RENAME="A:C,B:D" stores variant A as <pid>C etc. (later rounds)
+  outvar=$var
+  for m in $(echo ${RENAME:-} | tr ',' ' '); do [ "${m%%:*}" = "$var" ] && outvar=${m##*:}; done
+  outid=${pid}${outvar}
   dir=$(head -12 $d/demo_test.go | grep -o -m1 -E '(emitter|parser|lexer)/' | head -1)
   [ -z "$dir" ] && { echo "$id SKIP no target dir"; continue; }
   git -C $WT checkout -q -- . ; git -C $WT clean -fdq
@@ -26,14 +30,14 @@ for d in $SRC/C*/OUT/*/; do
   if [ "$suite" = "0" ] && [ "$with" = "FAIL" ] && [ "$without" = "ok" ]; then verdict=CONFIRMED; fi
   echo "$id $verdict suite_failures=$suite demo_with=$with demo_without=$without dir=$dir"
   if [ $verdict = CONFIRMED ]; then
-    out=/verif/seeded/$id; mkdir -p $out
+    out=/verif/seeded/$outid; mkdir -p $out
     cp $d/patch.diff $out/patch.diff; cp $d/demo_test.go $out/demo_test.go
     python3 - "$d/meta.json" "$out/meta.json" "$pid" "$var" "$dir" <<'P'
 import json,sys
 src,dst,pid,var,dir=sys.argv[1:]
 try: m=json.load(open(src))
 except Exception as e: m={"summary":"(agent meta.json unreadable: %s)"%e}
-m.update({"property":pid,"variant":var,"demo_dir":dir,
+m.update({"property":pid,"variant":var,"demo_dir":dir,"demo_test_name":"TestSeeded%s%s"%(pid,var),
  "confirmed_by_me":"tools/confirm_seeds.sh in a scratch worktree: patch applies and builds; go test -vet=off -count=1 ./... green with the patch; demo test fails with the patch and passes without it"})
 json.dump(m,open(dst,"w"),indent=1)
 P
